@@ -61,6 +61,11 @@ def make_stream(rng, cfg, big: bool = False) -> tuple[bytes, list]:
                 fr, _d = hdlc_gen.good_frame(rng, ids, max_info=rng.choice((None, 60, 60, 300)) if not big else 120)
                 desc.append(("good", len(fr)))
             parts += hdlc_gen.on_wire(fr, stuffing)
+            sib = hdlc_gen.sibling(rng, _d, ids) if rng.random() < 0.3 else None
+            if sib is not None:
+                # a frame that starts exactly like the previous one (same format / length field and first address octets), laid out differently
+                parts += b"\x7e" + hdlc_gen.on_wire(sib[0], stuffing)
+                desc.append(("good", "sibling_of_previous"))
         elif r < 0.8:
             fr, _d = hdlc_gen.good_frame(rng, ids, max_info=rng.choice((40, 40, 300, None)))
             bad, kind = hdlc_gen.corrupt(rng, fr)
